@@ -27,7 +27,7 @@ ASSUMPTIONS = ["payoff reference formulas (max(+-(S-K),0), S-K) written independ
 TIERS = {
     "quick": {"worlds": 1200, "wall": 500, "shrink_budget": 60,
               "required_probes": ["c07.run_completed", "c07.vector_payoff", "c07.with_controls", "c07.pool_run",
-                                  "c07.cv_mean_equals_price"]},
+                                  "c07.cv_mean_equals_price", "c07.engine_reused"]},
     "thorough": {"worlds": 60000, "wall": 3300, "shrink_budget": 150,
                  "required_probes": ["c07.run_completed", "c07.vector_payoff", "c07.with_controls", "c07.pool_run",
                                      "c07.cv_mean_equals_price", "pool.n_lt_W", "c07.n_equals_1"]},
@@ -57,9 +57,19 @@ def generate(seed, tier="quick"):
         cst = [round(x0 * r.uniform(0.7, 1.3), 6) for _ in range(k)]
         controls.append({"kind": ck, "strikes": cst, "notional": r.choice([1.0, 1.0, 2.0]),
                          "price_mode": r.choice(["sample_mean", "exact_plus_noise", "off"])})
+    warm = r.choice([None, None, None, "more", "fewer", "same"])
+    warm_n = None if warm is None else {"more": n + r.choice([1, 3, 17]), "fewer": max(1, n - r.choice([1, 2, 5])), "same": n}[warm]
+    warm_vals = []
+    while warm_n is not None and len(warm_vals) < warm_n + 4:
+        v = round(r.gauss(0.0, scale), 9)
+        if v not in seen:
+            seen.add(v)
+            warm_vals.append(v)
     sc = {
         "world_seed": seed,
         "n": n,
+        "warm_n": warm_n,
+        "warm_values": warm_vals,
         "x0": x0,
         "values": vals,
         "payoff": payoff,
@@ -84,6 +94,10 @@ def shrink_candidates(sc):
         c.update(kw)
         return c
 
+    if sc.get("warm_n") is not None:
+        yield mod(warm_n=None, warm_values=[])
+        if sc["warm_n"] > 2:
+            yield mod(warm_n=max(1, sc["warm_n"] // 2))
     for smaller in (1, 2, 3, 5, 8):
         if smaller < sc["n"]:
             yield mod(n=smaller)
@@ -148,10 +162,14 @@ def execute(wd, sc):
 
     n, k = sc["n"], len(sc["payoff"]["strikes"])
     df, x0 = sc["df"], sc["x0"]
-    stubs.prepare_stub_world(wd, values=sc["values"])
+    warm_n = sc.get("warm_n")
+    warm_vals = list(sc.get("warm_values", []))[: (warm_n or 0)] if warm_n else []
+    all_values = warm_vals + list(sc["values"])
+    off = len(warm_vals)
+    stubs.prepare_stub_world(wd, values=all_values)
     V, errors = [], []
     # reference rows for ALL listed values (the engine may use any n of them)
-    S_all = x0 + np.asarray(sc["values"], dtype=float)
+    S_all = x0 + np.asarray(all_values, dtype=float)
 
     def ref_rows(kind, strikes, notional):
         return np.array([notional * _ref_payoff(kind, strikes, s) * df for s in S_all]).reshape(len(S_all), -1)
@@ -161,7 +179,7 @@ def execute(wd, sc):
     # control prices: as given to the engine before the run
     cv_prices = []
     for c, X in zip(sc["controls"], X_all):
-        m = X[:n].mean(axis=0)
+        m = X[off:off + n].mean(axis=0)
         if c["price_mode"] == "sample_mean":
             p = m
         elif c["price_mode"] == "exact_plus_noise":
@@ -182,6 +200,14 @@ def execute(wd, sc):
                                 activate_spot_statistics=sc["spot_stats"], nb_of_processes=sc["nproc"])
     eng = Engine(cfg, process)
     try:
+        if warm_n:
+            # history: the same engine object has priced before, with another number of paths
+            cfg.mc_paths = warm_n
+            eng.price(product)
+            cfg.mc_paths = n
+            wd.faults["history.engine_reused"] += 1
+            wd.probes["c07.engine_reused"] += 1
+        led0 = len(wd.stub_ledger)
         stats = eng.price(product)
     except HarnessError:
         raise
@@ -197,9 +223,11 @@ def execute(wd, sc):
     if n == 1:
         wd.probes["c07.n_equals_1"] += 1
     cls = f"k={'1' if k == 1 else 'vector'}|cv={'0' if not sc['controls'] else 'yes'}|procs={'1' if sc['nproc'] == 1 else 'pool'}"
+    if warm_n:
+        cls += "|engine-reused-after-" + ("more" if warm_n > n else "fewer" if warm_n < n else "same") + "-paths"
 
     # ---- ledger clause: exactly n samples, each used exactly once --------------------------------
-    led = wd.stub_ledger
+    led = wd.stub_ledger[led0:]
     used_serials = [e["serial"] for e in led]
     if len(used_serials) != n:
         V.append({"sig": f"C07.count|number of simulated paths differs from the configured number|{'more' if len(used_serials) > n else 'fewer'}|{cls}",
